@@ -86,7 +86,19 @@ const (
 	// EEmptyBatchErr: the callback fails with the library's own aggregate error type holding no entries (an aggregate
 	// returned unconditionally), as is or wrapped: a non-nil error like any other
 	EEmptyBatchErr = NumErrKinds + 12
+	// EWrapping: a typed error (*WrapErr) that itself wraps an unrelated root cause through Unwrap: the value the
+	// callback returned is the typed one — a library that digs for a "root cause" loses it
+	EWrapping = NumErrKinds + 13
 )
+
+// WrapErr is a typed error with a cause of its own.
+type WrapErr struct {
+	ID    string
+	Cause error
+}
+
+func (e *WrapErr) Error() string { return "quota exceeded for " + e.ID + ": " + e.Cause.Error() }
+func (e *WrapErr) Unwrap() error { return e.Cause }
 
 // PermErr is a permanent-looking error.
 type PermErr struct{ ID string }
@@ -111,7 +123,7 @@ type MultiErr []error
 func (m MultiErr) Error() string { return fmt.Sprintf("%d errors", len(m)) }
 
 // AllErrKinds lists every error kind a callback can be scripted to fail with (ECtxAware excluded: it depends on the context).
-var AllErrKinds = []int{ESentinel, EWrapped, ECustom, ECtxLike, EUncomparable, EJoined, ENestedRun, ETemporary, ETypedNil, ENilSliceErr, ENotTemporary, EChained, ESameValue, EIOEOF, EEmptyBatchErr}
+var AllErrKinds = []int{ESentinel, EWrapped, ECustom, ECtxLike, EUncomparable, EJoined, ENestedRun, ETemporary, ETypedNil, ENilSliceErr, ENotTemporary, EChained, ESameValue, EIOEOF, EEmptyBatchErr, EWrapping}
 
 // UncompErr is an error whose dynamic type is not comparable.
 type UncompErr struct {
@@ -318,6 +330,7 @@ type fakeCtx struct {
 	calls   atomic.Int64
 	tripAt  int64
 	onTrip  func()
+	ownErr  bool
 }
 
 func newFakeCtx() *fakeCtx               { return &fakeCtx{Context: context.Background(), done: make(chan struct{})} }
@@ -336,10 +349,20 @@ func (c *fakeCtx) Err() error {
 }
 func (c *fakeCtx) Deadline() (time.Time, bool) { return time.Time{}, false }
 func (c *fakeCtx) trip() {
-	if c.err.CompareAndSwap(nil, error(context.DeadlineExceeded)) {
+	var e error = context.DeadlineExceeded
+	if c.ownErr {
+		e = &ownCtxErr{"lease lost"} // a context implementation with an error value of its own
+	}
+	if c.err.CompareAndSwap(nil, e) {
 		close(c.done)
 	}
 }
+
+// ownCtxErr is what a hand-written context.Context may report from Err(): "the context's error" is whatever the
+// context says it is.
+type ownCtxErr struct{ why string }
+
+func (e *ownCtxErr) Error() string { return "context ended: " + e.why }
 
 func (x *Exec) record(e Event) int {
 	x.mu.Lock()
@@ -395,7 +418,7 @@ func (x *Exec) enter() (ordinal int) {
 	if inj.OneRun && inj.Run != x.runIdx {
 		return
 	}
-	if (inj.Kind == "cancel" || inj.Kind == "deadline" || inj.Kind == "cancel-cause" || inj.Kind == "cancel-far") && inj.At == ordinal && x.cancel != nil {
+	if (inj.Kind == "cancel" || inj.Kind == "deadline" || inj.Kind == "cancel-cause" || inj.Kind == "cancel-far" || inj.Kind == "own-error") && inj.At == ordinal && x.cancel != nil {
 		x.cancel()
 		x.cancelSeq = ordinal
 	}
@@ -466,6 +489,12 @@ func (x *Exec) mkErr(kind int, id string) error {
 		if len(id)%2 == 0 {
 			ret = fmt.Errorf("reading %s: %w", id, io.EOF)
 		}
+	case EWrapping:
+		sentinel = &WrapErr{ID: id, Cause: fmt.Errorf("backend said no (%w)", io.ErrUnexpectedEOF)}
+		ret = sentinel
+		if len(id)%2 == 0 {
+			ret = fmt.Errorf("while handling %s: %w", id, sentinel)
+		}
 	case EEmptyBatchErr:
 		sentinel = &flyt.BatchError{}
 		ret = sentinel
@@ -535,6 +564,9 @@ func (x *Exec) MatchErr(err error) string {
 		if ce, isC := s.(*CustomErr); isC {
 			var got *CustomErr
 			ok = errors.As(err, &got) && got == ce && errors.Is(err, s)
+		} else if we, isW := s.(*WrapErr); isW {
+			var got *WrapErr
+			ok = errors.As(err, &got) && got == we && errors.Is(err, s)
 		} else if _, isN := s.(*NilableErr); isN {
 			var got *NilableErr
 			ok = errors.As(err, &got) && got == nil
@@ -1244,6 +1276,13 @@ func (x *Exec) RunOnce() (out Outcome) {
 		c, cf := context.WithCancelCause(context.Background())
 		ctx, x.cancel = c, func() { cf(errors.New("custom cancellation cause")) }
 		stop = x.cancel
+	case "own-error", "pre-own-error": // a hand-written context whose Err() is an error value of its own
+		f := newFakeCtx()
+		f.ownErr = true
+		ctx, x.cancel = f, f.trip
+		if x.Sc.Inject.Kind == "pre-own-error" {
+			f.trip()
+		}
 	case "deadline", "pre-deadline":
 		f := newFakeCtx()
 		ctx, x.cancel = f, f.trip
